@@ -55,14 +55,14 @@ __CPROVER_ensures((OLD((q).s.n) > 0 && OLD((q).s.orig) && !(q).s.orig && DLT(g_p
 static void fn(void *arg, int err)                                                                  \
 __CPROVER_requires(__CPROVER_is_fresh(arg, sizeof(T)) && VP_ENV_PRE((T *) arg) && g_q_objects && !g_cx_member && VP_NO_LOCK_HELD) \
 __CPROVER_requires(__CPROVER_is_fresh(g_rq.later, sizeof(nni_aio)) && __CPROVER_is_fresh(g_wq.later, sizeof(nni_aio))) \
-__CPROVER_assigns(g_sys, g_rq.s, g_wq.s, g_pfd_close_calls, VP_SYNC_GHOSTS, VP_LATER_T(g_rq.later), VP_LATER_T(g_wq.later)) \
+__CPROVER_assigns(g_sys, g_rq.s, g_wq.s, VP_SYNC_GHOSTS, VP_LATER_T(g_rq.later), VP_LATER_T(g_wq.later)) \
 __CPROVER_ensures(VP_ALL_DONE(err) && VP_NO_SYSCALL && VP_NO_LOCK_HELD && DLT(g_pfd_close_calls) == 1) \
 ;
 #define VP_CLOSE_CONTRACT(fn, T)                                                                    \
 static void fn(void *arg)                                                                           \
 __CPROVER_requires(__CPROVER_is_fresh(arg, sizeof(T)) && VP_ENV_PRE((T *) arg) && g_q_objects && !g_cx_member && VP_NO_LOCK_HELD) \
 __CPROVER_requires(__CPROVER_is_fresh(g_rq.later, sizeof(nni_aio)) && __CPROVER_is_fresh(g_wq.later, sizeof(nni_aio))) \
-__CPROVER_assigns(((T *) arg)->closed, g_sys, g_rq.s, g_wq.s, g_pfd_close_calls, VP_SYNC_GHOSTS, VP_LATER_T(g_rq.later), VP_LATER_T(g_wq.later)) \
+__CPROVER_assigns(((T *) arg)->closed, g_sys, g_rq.s, g_wq.s, VP_SYNC_GHOSTS, VP_LATER_T(g_rq.later), VP_LATER_T(g_wq.later)) \
 __CPROVER_ensures(((T *) arg)->closed && VP_NO_SYSCALL && VP_NO_LOCK_HELD)                           \
 /* first close: everybody waiting is told NNG_ECLOSED, once; the descriptor is shut down */         \
 __CPROVER_ensures(!OLD(((T *) arg)->closed) ==> (VP_ALL_DONE(NNG_ECLOSED) && DLT(g_pfd_close_calls) == 1)) \
@@ -99,8 +99,9 @@ __CPROVER_ensures(!(VP_O_RHEAD(aio) || VP_O_WHEAD(aio) || VP_O_BEHIND(aio)) ==> 
 static void fn(void *arg, nni_aio *aio)                                                             \
 __CPROVER_requires(__CPROVER_is_fresh(arg, sizeof(T)) && VP_ENV_PRE((T *) arg) && g_q_objects && !g_cx_member && VP_NO_LOCK_HELD) \
 __CPROVER_requires(__CPROVER_is_fresh(aio, sizeof(nni_aio)) && VP_AIO_WF(aio) && VP_Q_OBJ_PRE(q) && ((q).s.n > 0 || !(q).s.orig)) \
-__CPROVER_assigns(g_sys, (q).s, (q).first, aio->a_count, aio->a_result, aio->a_abort, aio->a_expire_ok, aio->a_sleep, aio->a_skipped_callback, __CPROVER_object_upto(&aio->a_outputs[0], sizeof(aio->a_outputs)), VP_LATER_T((q).later)) \
-__CPROVER_assigns(g_start_calls, g_start_aio, g_start_fn, g_start_arg, g_arm_calls, g_arm_pfd, g_arm_events, VP_SYNC_GHOSTS) \
+__CPROVER_assigns(g_sys, (q).s, (q).first, __CPROVER_object_whole(aio), VP_LATER_T((q).later), VP_SYNC_GHOSTS) \
+/* the caller's vector is not touched */ \
+__CPROVER_ensures(aio->a_nio == OLD(aio->a_nio) && aio->a_iov[g_j & 7u].iov_buf == OLD(aio->a_iov[g_j & 7u].iov_buf) && aio->a_iov[g_j & 7u].iov_len == OLD(aio->a_iov[g_j & 7u].iov_len)) \
 __CPROVER_ensures(VP_NO_LOCK_HELD && (oq).s.n == OLD((oq).s.n))                                      \
 /* handed to the aio layer exactly once, with this connection's cancel function */                   \
 __CPROVER_ensures(DLT(g_start_calls) == 1 && g_start_aio == aio && g_start_fn == (void *) CANCELFN && g_start_arg == arg) \
@@ -127,8 +128,7 @@ __CPROVER_ensures((g_start_ok && ACTIVE((T *) arg) && OLD((q).s.n) == 0 && DLT(g
 static void fn(void *arg, unsigned events)                                                          \
 __CPROVER_requires(__CPROVER_is_fresh(arg, sizeof(T)) && VP_ENV_PRE((T *) arg) && g_q_objects && !g_cx_member && VP_NO_LOCK_HELD) \
 __CPROVER_requires(VP_Q_OBJ_PRE(g_rq) && VP_Q_OBJ_PRE(g_wq) && (g_rq.s.n > 0 || !g_rq.s.orig) && (g_wq.s.n > 0 || !g_wq.s.orig)) \
-__CPROVER_assigns(g_sys, g_rq.s, g_wq.s, g_rq.first->a_count, g_wq.first->a_count, VP_LATER_T(g_rq.later), VP_LATER_T(g_wq.later)) \
-__CPROVER_assigns(g_arm_calls, g_arm_pfd, g_arm_events, g_pfd_close_calls, g_dialcb_calls, VP_SYNC_GHOSTS) \
+__CPROVER_assigns(g_sys, g_rq.s, g_wq.s, g_rq.first->a_count, g_wq.first->a_count, VP_LATER_T(g_rq.later), VP_LATER_T(g_wq.later), VP_SYNC_GHOSTS) \
 __CPROVER_ensures(VP_NO_LOCK_HELD && VP_EXACTLY_ONCE)                                                \
 /* a connection still being established: the event belongs to the dialer */                         \
 __CPROVER_ensures(DIALING((T *) arg) ==> (DLT(g_dialcb_calls) == 1 && VP_NO_SYSCALL && VP_NO_FIN && DLT(g_arm_calls) == 0)) \
@@ -157,5 +157,26 @@ VP_CANCEL_CONTRACT(tcp_cancel, nni_tcp_conn)
 VP_SUBMIT_CONTRACT(tcp_send, nni_tcp_conn, g_wq, g_rq, VP_TCP_ACTIVE, NNI_POLL_OUT, tcp_cancel, VP_SYS_WRITE)
 VP_SUBMIT_CONTRACT(tcp_recv, nni_tcp_conn, g_rq, g_wq, VP_TCP_ACTIVE, NNI_POLL_IN, tcp_cancel, VP_SYS_READ)
 VP_CB_CONTRACT(tcp_cb, nni_tcp_conn, VP_TCP_DIALING)
+#endif
+#ifdef VP_M_IPC
+/* posix_ipcconn.c: same functions; the transfer loops additionally do nothing when the poller
+ * reports no descriptor (fd < 0) */
+VP_XFER_CONTRACT(ipc_dowrite, ipc_conn, g_wq, VP_IPC_ACTIVE)
+VP_XFER_CONTRACT(ipc_doread, ipc_conn, g_rq, VP_IPC_ACTIVE)
+VP_ERROR_CONTRACT(ipc_error, ipc_conn)
+VP_CLOSE_CONTRACT(ipc_close, ipc_conn)
+VP_CANCEL_CONTRACT(ipc_cancel, ipc_conn)
+VP_SUBMIT_CONTRACT(ipc_send, ipc_conn, g_wq, g_rq, VP_IPC_ACTIVE, NNI_POLL_OUT, ipc_cancel, VP_SYS_WRITE)
+VP_SUBMIT_CONTRACT(ipc_recv, ipc_conn, g_rq, g_wq, VP_IPC_ACTIVE, NNI_POLL_IN, ipc_cancel, VP_SYS_READ)
+VP_CB_CONTRACT(ipc_cb, ipc_conn, VP_TCP_DIALING)
+#endif
+#ifdef VP_M_SFD
+/* posix_sockfd.c: the descriptor is the field c->fd (bound to the ghost descriptor by the
+ * precondition); no dialing state; send/recv rely on nng_stream_send/recv for nni_aio_reset */
+VP_XFER_CONTRACT(sfd_dowrite, nni_sfd_conn, g_wq, VP_TCP_ACTIVE)
+VP_XFER_CONTRACT(sfd_doread, nni_sfd_conn, g_rq, VP_TCP_ACTIVE)
+VP_ERROR_CONTRACT(sfd_error, nni_sfd_conn)
+VP_CLOSE_CONTRACT(sfd_close, nni_sfd_conn)
+VP_CANCEL_CONTRACT(sfd_cancel, nni_sfd_conn)
 #endif
 #endif
